@@ -53,10 +53,11 @@ def run(rep, tier, args):
     rep.extra["answers_by_algorithm"] = kinds
     rep.evaluations = sum(kinds.values())
     rep.add_sample({"wallet_and_queries": [json.loads(x) for x in ws[1][1:4]]})
-    for need in ("indexed/ok", "indexed/insufficient", "indexed/max", "largest/ok", "largest/max", "improve/ok"):
-        if not kinds.get(need):
-            raise vlib.ToolError("driver did not produce any %s answer" % need)
     rep.judge_trace("Trace_CoinsQuery", cfg, tp, name="C37-b3", key_fn=key, timeout=3000)
+    if not rep.violations and not rep.divergences:      # health of the driver (vacuity), on conforming code only
+        for need in ("indexed/ok", "indexed/insufficient", "indexed/max", "largest/ok", "largest/max", "improve/ok"):
+            if not kinds.get(need):
+                raise vlib.ToolError("driver did not produce any %s answer" % need)
     # the known-finding request shape, one walk
     tp0 = os.path.join(wd, "probe-max0.ndjson")
     vlib.run_harness(hbin, ["coins-probe-max0", "--out", tp0])
@@ -74,6 +75,8 @@ def key(lines, names):
 
 def selftest(rep, trace, cfg):
     """Add an excluded / foreign id to one recorded selection: strict must reject, observe must break Sound."""
+    if rep.violations or rep.divergences:
+        return      # the code under test already deviates: report that, the self-test needs conforming traces
     for w in vlib.split_trace(trace):
         w = list(w)
         wallet = json.loads(w[1])["res"]
